@@ -559,7 +559,7 @@ package resource
 //@
 //@ // ---- the goroutine that forwards a Collection's events to one subscriber (C04 seeds/edit script, C08 include before
 //@ // mask and equivalence, C06 projection, C10 close) ----
-//@ property C04 C06 C08 C10 C16
+//@ property C04 C06 C07 C08 C10 C14 C16
 //@
 //@ func (*Collection).Pull$1()
 //@   requires c != nil && c.config != nil && filter != nil && readConfig != nil && send != nil && !isnil(ctx)
